@@ -54,10 +54,13 @@ func replay(c *core.Ctx, raw json.RawMessage) error {
 	return nil
 }
 
-var atomVals = []int{0, 1, 2, 300, 301, 70000} // 0 = the zero value; >= 256 are boxed on the heap by Go
+var atomVals = []int{0, 300, 1, 301, 2, 70000} // 0 = the zero value; >= 256 are boxed on the heap by Go
 
-func randAtomOp(r *core.Rand) Op {
-	v := func() int { return atomVals[r.Intn(len(atomVals))] }
+func randAtomOp(r *core.Rand) Op { return randAtomOpN(r, len(atomVals)) }
+func randAtomOp2(r *core.Rand) Op { return randAtomOpN(r, 2) } // universe {0, 300}: CompareAndSwap often succeeds
+
+func randAtomOpN(r *core.Rand, nv int) Op {
+	v := func() int { return atomVals[r.Intn(nv)] }
 	switch k := r.Intn(10); {
 	case k < 3:
 		return Op{K: "L"}
@@ -124,9 +127,13 @@ func run(c *core.Ctx) {
 	for i := c.N(1500, 20000, 12000); i > 0; i-- {
 		n, ops := 2+c.Rng.Intn(2), 3
 		if c.Rng.Chance(40) {
-			n, ops = 2+c.Rng.Intn(7), 4
+			n, ops = 2+c.Rng.Intn(7), 7
 		}
-		exec(c, Case{Kind: "atomic", Progs: progs(c.Rng, n, ops, randAtomOp), Jitter: c.Rng.Uint64()})
+		gen := randAtomOp
+		if c.Rng.Bool() {
+			gen = randAtomOp2
+		}
+		exec(c, Case{Kind: "atomic", Progs: progs(c.Rng, n, ops, gen), Jitter: c.Rng.Uint64()})
 	}
 	// CompareAndSwap against concurrent Stores of an equal value
 	for i := c.N(40, 400, 400); i > 0; i-- {
@@ -140,6 +147,17 @@ func run(c *core.Ctx) {
 			n, ops = 2+c.Rng.Intn(7), 8
 		}
 		exec(c, Case{Kind: "pool", New: c.Rng.Chance(65), Progs: progs(c.Rng, n, ops, randPoolOp), Jitter: c.Rng.Uint64()})
+	}
+}
+
+// barrier releases n goroutines at the same instant (spinning, so that they really run in parallel).
+func barrier(ready *int32, n int) {
+	atomic.AddInt32(ready, 1)
+	// spin without yielding for a while: yielding early lets one P run all goroutines one after the other
+	for i := 0; atomic.LoadInt32(ready) < int32(n); i++ {
+		if i%200000 == 199999 {
+			runtime.Gosched()
+		}
 	}
 }
 
@@ -197,7 +215,7 @@ func execAtomic(c *core.Ctx, cs Case) {
 	var clock int64
 	recs := make([][]rec, n)
 	var wg sync.WaitGroup
-	start := make(chan struct{})
+	var ready int32
 	panicked := ""
 	var pmu sync.Mutex
 	for t := 0; t < n; t++ {
@@ -205,9 +223,9 @@ func execAtomic(c *core.Ctx, cs Case) {
 		go func(t int) {
 			defer wg.Done()
 			jr := core.NewRand(cs.Jitter + uint64(t)*104729)
-			<-start
+			barrier(&ready, n)
 			for _, o := range cs.Progs[t] {
-				if n > 1 {
+				if n > 1 && cs.Jitter%2 == 1 {
 					for y := jr.Intn(3); y > 0; y-- {
 						runtime.Gosched()
 					}
@@ -237,7 +255,6 @@ func execAtomic(c *core.Ctx, cs Case) {
 			}
 		}(t)
 	}
-	close(start)
 	done := make(chan struct{})
 	go func() { wg.Wait(); close(done) }()
 	select {
@@ -254,6 +271,20 @@ func execAtomic(c *core.Ctx, cs Case) {
 	var all []rec
 	for _, rs := range recs {
 		all = append(all, rs...)
+	}
+	overlap := false
+	for _, a := range all {
+		if a.op.K == "C" {
+			c.Count(fmt.Sprintf("atomic_cas_%v", a.ok))
+		}
+		for _, b := range all {
+			if a.t != b.t && a.inv < b.ret && b.inv < a.ret {
+				overlap = true
+			}
+		}
+	}
+	if overlap {
+		c.Count("atomic_histories_with_overlapping_calls")
 	}
 	if n == 1 {
 		if msg := sequentialOracle(all); msg != "" {
@@ -452,7 +483,7 @@ func execPool(c *core.Ctx, cs Case) {
 		c.Nontrivial() // at least two goroutines share the pool
 	}
 	var p sync2.Pool[*item]
-	var newCalls, zeroPuts, zeroGets int64
+	var newCalls, zeroPuts, zeroGets, statNew, statReused int64
 	if cs.New {
 		p.New = func() *item {
 			atomic.AddInt64(&newCalls, 1)
@@ -472,7 +503,7 @@ func execPool(c *core.Ctx, cs Case) {
 		fmu.Unlock()
 	}
 	var wg sync.WaitGroup
-	start := make(chan struct{})
+	var ready int32
 	for t := 0; t < n; t++ {
 		wg.Add(1)
 		go func(t int) {
@@ -480,9 +511,9 @@ func execPool(c *core.Ctx, cs Case) {
 			jr := core.NewRand(cs.Jitter + uint64(t)*104729)
 			var held []*item
 			fresh := 0
-			<-start
+			barrier(&ready, n)
 			for i, o := range cs.Progs[t] {
-				if n > 1 {
+				if n > 1 && cs.Jitter%2 == 1 {
 					for y := jr.Intn(3); y > 0; y-- {
 						runtime.Gosched()
 					}
@@ -515,6 +546,11 @@ func execPool(c *core.Ctx, cs Case) {
 						fail("Pool.Get handed one item to two users", fmt.Sprintf("goroutine %d op %d got item (%d,%d) which is still held by a user", t, i, x.owner, x.idx))
 					}
 					got[t] = append(got[t], obs{false, x.owner, x.idx})
+					if x.byNew && x.owner == t && x.idx == fresh-1 && atomic.LoadInt32(&x.gotCnt) == 1 && atomic.LoadInt64(&newCalls) != before {
+						atomic.AddInt64(&statNew, 1)
+					} else {
+						atomic.AddInt64(&statReused, 1)
+					}
 					held = append(held, x)
 				case "H":
 					if o.A < len(held) {
@@ -538,7 +574,6 @@ func execPool(c *core.Ctx, cs Case) {
 			}
 		}(t)
 	}
-	close(start)
 	done := make(chan struct{})
 	go func() { wg.Wait(); close(done) }()
 	select {
@@ -550,6 +585,9 @@ func execPool(c *core.Ctx, cs Case) {
 	for _, f := range fails {
 		c.Fail(f[0], f[1])
 	}
+	c.CountN("pool_get_new_item", int(statNew))
+	c.CountN("pool_get_reused_item", int(statReused))
+	c.CountN("pool_get_zero", int(zeroGets))
 	if n <= 3 && total <= 10 {
 		ths := make([]string, n)
 		for t, p := range cs.Progs {
